@@ -207,7 +207,7 @@ func runProperty(id string, def propDef, repo, verif, tier string, seed int64, n
 			if i := strings.IndexByte(o.Instance, '.'); i > 0 && failedPkgs[o.Instance[:i]] {
 				inFailedPkg = true
 			}
-			if premiseFailed && !ownsPremise && !o.OK && (strings.Contains(o.Detail, "premise R07.store failed") || inFailedPkg) {
+			if premiseFailed && !ownsPremise && !o.OK && (strings.Contains(o.Detail, "premise R07.store failed") || (inFailedPkg && !layoutIndependent(o.Rule))) {
 				o.OK = true
 				o.NonTrivial = false
 				o.Detail = "not decided in this run (layout premise failed; reported under C07/C02/C06): " + o.Detail
@@ -281,4 +281,17 @@ func runProperty(id string, def propDef, repo, verif, tier string, seed int64, n
 	}
 	meta := def.Meta
 	return run.finish(meta, verif, evDir, files)
+}
+
+// layoutIndependent: rules whose verdict does not use the byte layout model
+// (Set's stores / Get's loads): the parsers' control flow and error values,
+// the vocabulary accepted and printed, rating, effects and allocation rules.
+// A failed layout premise never hides their verdicts.
+func layoutIndependent(rule string) bool {
+	for _, p := range []string{"R01.", "R09.", "R13.", "R14.", "R15.", "R17.", "R18.", "R06.cut", "R06.fresh", "R06.same", "R02.header", "R02.order", "R07.guard"} {
+		if strings.HasPrefix(rule, p) {
+			return true
+		}
+	}
+	return false
 }
